@@ -296,13 +296,27 @@ func (c *compiler) evalUpdateIndex(left, index, value interface{}) error {
 	rv := reflect.ValueOf(left)
 	switch rv.Kind() {
 	case reflect.Map:
+		mapType := rv.Type()
+		if index == nil || !reflect.TypeOf(index).AssignableTo(mapType.Key()) {
+			return fmt.Errorf("cannot use %v (%T) as %s value in map index", index, index, mapType.Key())
+		}
+		if value != nil && !reflect.TypeOf(value).AssignableTo(mapType.Elem()) {
+			return fmt.Errorf("cannot use '%v' (%T) as %s value in assignment", value, value, mapType.Elem())
+		}
 		rv.SetMapIndex(reflect.ValueOf(index), reflect.ValueOf(value))
 	case reflect.Array, reflect.Slice:
 		if i, ok := index.(int); ok {
-			if rv.Len()-1 < i {
+			if i < 0 || rv.Len()-1 < i {
 				err = fmt.Errorf("array index out of bounds, got index %d, while array size is %v", i, rv.Len())
 			} else {
 				elemType := reflect.TypeOf(left).Elem()
+				if value == nil {
+					if elemType.Kind() != reflect.Interface {
+						return fmt.Errorf("cannot use nil as %s value in assignment", elemType)
+					}
+					rv.Index(i).Set(reflect.Zero(elemType))
+					return nil
+				}
 				if elemType.Kind() != reflect.Interface {
 					t := reflect.ValueOf(value).Type()
 					if elemType != t {
@@ -329,10 +343,13 @@ func (c *compiler) evalAccessIndex(left, index interface{}, node *ast.IndexExpre
 	rv := reflect.ValueOf(left)
 	switch rv.Kind() {
 	case reflect.Map:
+		if index == nil {
+			return nil, fmt.Errorf("cannot use nil as %s value in map index", reflect.TypeOf(left).Key())
+		}
 		mapKeyType := reflect.TypeOf(left).Key().Kind()
 		keyType := reflect.TypeOf(index).Kind()
 		if mapKeyType != reflect.Interface &&
-			keyType != mapKeyType {
+			(keyType != mapKeyType || !reflect.TypeOf(index).AssignableTo(reflect.TypeOf(left).Key())) {
 			err = fmt.Errorf("cannot use %v (%s constant) as %s value in map index", index, keyType.String(), mapKeyType.String())
 			return nil, err
 		}
@@ -349,7 +366,7 @@ func (c *compiler) evalAccessIndex(left, index interface{}, node *ast.IndexExpre
 		}
 	case reflect.Array, reflect.Slice:
 		if i, ok := index.(int); ok {
-			if rv.Len()-1 < i {
+			if i < 0 || rv.Len()-1 < i {
 				err = fmt.Errorf("array index out of bounds, got index %d, while array size is %d", index, rv.Len())
 			} else {
 
